@@ -2,4 +2,4 @@
 From Coq Require Import ZArith ExtrOcamlBasic.
 Require Import ZV.Model.Struct.
 Extraction "model.ml" Z.add Z.mul Z.opp Z.div_eucl Z.of_nat Z.to_nat Z.compare
-  init_state step spec_step invb alookup.
+  init_state step spec_step invb alookup resolve.
